@@ -415,13 +415,24 @@ def family_unserialisable(run):
     return _family_unwritable(run, "unserialisable", UNSERIALISABLE, _spoil)
 
 
+# a base letter followed by a combining mark: the *composed* character exists in the code page, the sequence as written
+# does not encode (decomposed text, as file names and pasted text from macOS carry it)
+DECOMPOSED = {"cp1252": "e\u0301", "cp932": "\u304b\u3099", "cp949": "\u1100\u1161"}
+
+
 def family_unencodable(run):
     ch = ff.unencodable_char(run.enc)
     if ch is None:
         return 0, ["family:unencodable", "every-character-encodable"]
     if ff.can_encode(ch, run.enc):
         raise HarnessError("unencodable character is encodable")
-    return _family_unwritable(run, "unencodable", UNENCODABLE, lambda sf, place: _spoil_encoding(sf, place, ch))
+    evals, labels = _family_unwritable(run, "unencodable", UNENCODABLE, lambda sf, place: _spoil_encoding(sf, place, ch))
+    seq = DECOMPOSED.get(run.enc)
+    if seq and not ff.can_encode(seq, run.enc):
+        e2, l2 = _family_unwritable(run, "unencodable", UNENCODABLE, lambda sf, place: _spoil_encoding(sf, place, seq))
+        evals += e2
+        labels = labels + l2 + ["unencodable:decomposed-sequence"]
+    return evals, labels
 
 
 # --------------------------------------------------------------------------------------------------------------
